@@ -8,7 +8,11 @@ from rules.common import RuleProxy
 
 # property -> [(module, rule function, why it is necessary for this property)]
 CROSS = {
-    "C01": [("C17", "R3_equality_guard", "a two-hop whose legs disagree about the intermediate amount pays out what the second pool never received"),
+    "C01": [("C04", "R1e_mutated_accounts_are_mut", "an update that is not written back (missing `mut`) never happened: fees are collected twice, liquidity is never recorded"),
+            ("C10", "R5_loop_cursor", "a tick index moved without a crossing counts positions the pool liquidity does not contain"),
+            ("C10", "R4_sequence", "a tick skipped at an array boundary is liquidity that is claimed but was never added"),
+            ("C18", "R7_range_validator", "a zero-width or inverted range mints liquidity for nothing"),
+            ("C17", "R3_equality_guard", "a two-hop whose legs disagree about the intermediate amount pays out what the second pool never received"),
             ("C06", "R3_booking_side", "fees booked on the side nobody paid are fees the vault cannot pay"),
             ("C10", "R3_search_siblings", "a swap that skips an initialised tick trades against liquidity that is not there"),
             ("C05", "R2_one_delta", "tick updates seeded with the wrong side's growth credit fees nobody paid"),
@@ -17,13 +21,17 @@ CROSS = {
     "C03": [("C16", "R4_helpers", "the limits are compared with amounts net of the Token-2022 transfer fee, which is rounded up"),
             ("C06", "R4_swap_transfers", "what is compared with the limit must be what is transferred"),
             ("C16", "R5_tlv_reader", "the fee schedule of the current epoch decides what the trader pays and receives")],
-    "C05": [("C13", "R2_shift_bitmap_pairing", "a de-initialised dynamic slot that keeps a stray flag is a tick with garbage net / gross"),
+    "C05": [("C06", "R3_booking_side", "the tick stored with the pool is the tick the loop computed the liquidity for"),
+            ("C04", "R1e_mutated_accounts_are_mut", "an update that is not written back leaves the pool's liquidity and ticks at their old values"),
+            ("C13", "R6_account_wiring", "ticks written before the array is grown are cut off by the resize"),
+            ("C13", "R2_shift_bitmap_pairing", "a de-initialised dynamic slot that keeps a stray flag is a tick with garbage net / gross"),
             ("C10", "R3_search_siblings", "a tick the search skips is never crossed and its net never applied"),
             ("C15", "R5_pinocchio_superset", "a position of another pool adds liquidity to ticks of a pool it does not belong to"),
             ("C13", "R4_size_and_rent", "a dynamic array that shrinks while a tick stays initialised loses that tick's net / gross"),
             ("C13", "R5_shared_checks", "a tick booked into the wrong slot is liquidity at the wrong price"),
             ("C12", "R3_accessors", "a partial tick update leaves stale net / gross behind")],
-    "C07": [("C15", "R3_back_references", "a position settled against another pool's growth is credited fees its pool never collected"),
+    "C07": [("C01", "R2_pay_reset", "collecting fees resets what is owed and nothing else (the checkpoint stays)"),
+            ("C15", "R3_back_references", "a position settled against another pool's growth is credited fees its pool never collected"),
             ("C10", "R5_loop_cursor", "a cursor moved without a crossing leaves fee_growth_outside flipped"),
             ("C06", "R3_booking_side", "fee growth booked on the wrong token is credited in the wrong token")],
     "C08": [("C16", "R3_reposition_info", "the caller's maxima bound what a reposition may take, whichever way the net transfer goes"),
@@ -31,7 +39,8 @@ CROSS = {
     "C09": [("C08", "R1_case_split", "every price a position is valued at comes from the one tick-to-price function")],
     "C10": [("C13", "R5_shared_checks", "fixed and dynamic arrays must refuse the same lookups"),
             ("C05", "R5_crossing", "an initialised tick the swap reaches is crossed, whatever else the step did")],
-    "C11": [("C18", "R1_range_fields", "re-ranging a position must keep what it is owed"),
+    "C11": [("C04", "R1e_mutated_accounts_are_mut", "reward growth and timestamps that are not written back stay stale"),
+            ("C18", "R1_range_fields", "re-ranging a position must keep what it is owed"),
             ("C15", "R3_back_references", "a position of another pool has no share in this pool's rewards"),
             ("C12", "R3_accessors", "the Pinocchio write-back of reward growth and its timestamp"),
             ("C16", "R1_swap_wiring", "the v2 wrapper must hand on the accrued reward infos")],
@@ -46,13 +55,19 @@ CROSS = {
     "C16": [("C03", "R1_threshold_table", "the trader's limit is compared with the amount net of transfer fees"),
             ("xfer", "R_cpi_builders", "checked transfers carry the mint, its decimals and - iff it has a hook - the hook accounts"),
             ("events", "R_events", "the amounts and transfer fees reported are those of the same token side")],
-    "C17": [("C15", "R3_back_references", "each leg's oracle is that leg's pool's own"),
+    "C17": [("C04", "R1e_mutated_accounts_are_mut", "the second pool of a two-hop must be written back like the first"),
+            ("C15", "R3_back_references", "each leg's oracle is that leg's pool's own"),
             ("C03", "R1_threshold_table", "the two-hop's limit is compared with the last leg's output / the first leg's input"),
             ("C14", "R4_gates", "a leg that could not trade on its own must stop the two-hop"),
             ("C15", "R1_token_accounts", "each leg's vaults are the vaults of that leg's pool")],
     "C18": [("C04", "R4b_token_account_loader", "the frozen token account of a locked position is still a valid token account"),
             ("C15", "R3_back_references", "a position is re-ranged against its own pool only")],
-    "C15": [("C04", "R4b_token_account_loader", "token accounts are accepted from the two token programs only, compared in full")],
+    "C15": [("C17", "R4_distinct_and_shared_mint", "the two pools of a two-hop are two different accounts"),
+            ("C04", "R4b_token_account_loader", "token accounts are accepted from the two token programs only, compared in full")],
+    "C06": [("C04", "R1e_mutated_accounts_are_mut", "owed protocol fees that are not reset are paid again"),
+            ("C16", "R5_tlv_reader", "the input the pool books is what arrives net of the current epoch's transfer fee")],
+    "C19": [("C16", "R5_tlv_reader", "the program's own copy of the extension numbering decides which rule a mint is held to")],
+    "C20": [("C10", "R3_search_siblings", "the program side the SDK mirrors is one search, whichever array encoding serves it")],
 }
 NEEDS_SDK = {p for p, lst in CROSS.items() if any(m == "C20" for m, _, _ in lst)}
 
